@@ -6,20 +6,21 @@
 // shareable-space ACL (world_test.go). Values are built and signed by hand so that timestamps are data.
 //
 // Parts (each is a bounded exhaustive enumeration):
-//   arrival   every multiset of <= N values (one value may occur twice) of an alphabet slots x {t1<t2<t3}, every
-//             distinct permutation, every composition into SetRaw batches; oracle = reference contents
-//             (max timestamp per slot) for Iterate, GetAll, Diff().Elements(), Diff().Hash(), head entry, and
-//             a store re-opened on the same collection advertises the same index;
-//   local     the same with one local Storage.Set (real clock, later than every fixture timestamp) at every
-//             position, remote values for the very slot the local device writes included;
-//   exchange  every ordered pair of distinct reachable contents: one real syncWithPeer makes both stores equal
-//             to the slot-wise maximum;
-//   auth      bounded exhaustive mutations of valid values (relabelled KeyPeerId, every byte of the signed bytes
-//             x 5 patterns, every signature byte, swapped signatures, foreign peer key, replaced identity,
-//             unknown ACL record, signers without write permission at the cited record) inside a batch
-//             [valid, mutant, valid]: exactly the two valid values are stored;
-//   faults    an injected error at every storage-call boundary of a write (before / after the call): the
-//             advertised index equals what is stored, the head entry equals the hash, the retry succeeds.
+//
+//	arrival   every multiset of <= N values (one value may occur twice) of an alphabet slots x {t1<t2<t3}, every
+//	          distinct permutation, every composition into SetRaw batches; oracle = reference contents
+//	          (max timestamp per slot) for Iterate, GetAll, Diff().Elements(), Diff().Hash(), head entry, and
+//	          a store re-opened on the same collection advertises the same index;
+//	local     the same with one local Storage.Set (real clock, later than every fixture timestamp) at every
+//	          position, remote values for the very slot the local device writes included;
+//	exchange  every ordered pair of distinct reachable contents: one real syncWithPeer makes both stores equal
+//	          to the slot-wise maximum;
+//	auth      bounded exhaustive mutations of valid values (relabelled KeyPeerId, every byte of the signed bytes
+//	          x 5 patterns, every signature byte, swapped signatures, foreign peer key, replaced identity,
+//	          unknown ACL record, signers without write permission at the cited record) inside a batch
+//	          [valid, mutant, valid]: exactly the two valid values are stored;
+//	faults    an injected error at every storage-call boundary of a write (before / after the call): the
+//	          advertised index equals what is stored, the head entry equals the hash, the retry succeeds.
 package c12
 
 import (
@@ -51,11 +52,11 @@ func TestCheck(t *testing.T) {
 		Prop:  "C12",
 		Level: "model_checking",
 		Rule: "explicit enumeration on the real store, every case replayed on an emptied store: (arrival) all multisets with at most one repeated " +
-			"value of <=3 (quick) / <=4 (thorough) values over 4 slots x 3 timestamps and of 4 values over the 2 devices of one key (thorough also: " +
+			"value of <=3 (quick) / <=4 (thorough) values over 4 slots x 3 timestamps and of 4 values (quick: distinct) over the 2 devices of one key (thorough also: " +
 			"5 distinct values over those, <=3 values over 6 slots involving the second account), all distinct permutations, all compositions into " +
 			"batches, delivered by Storage.SetRaw or as a pushed batch through keyValueService.HandleMessage; (local) one real Storage.Set at every " +
-			"position of such sequences of <=3/4 remote values; (exchange) all ordered pairs of distinct contents with <=2 (quick) / <=3 (thorough) " +
-			"values over 4 slots, one real syncWithPeer <-> HandleStoreDiffRequest/HandleStoreElementsRequest each, plus 5 fixed scenarios with " +
+			"position of such sequences of <=3/4 remote values; (exchange) all ordered pairs of distinct contents with <=2 values over 3 slots (quick) / " +
+			"<=3 values over 4 slots (thorough), one real syncWithPeer <-> HandleStoreDiffRequest/HandleStoreElementsRequest each, plus 5 fixed scenarios with " +
 			"300-slot stores; (auth) every relabelling / byte x 5 patterns / signature / signer mutation of valid values inside [valid, mutant, " +
 			"valid]; (faults) an error before/after every storage call of a write for 7 fixed batches and all batches of <=2/3 values x 3 pre-states. " +
 			"states = distinct canonical store contents (symbolic slot=timestamp maps); distinct = outcome classes (per-arrival " +
@@ -69,7 +70,7 @@ func TestCheck(t *testing.T) {
 		},
 		Budget: func(tier string) time.Duration {
 			if tier == "quick" {
-				return 70 * time.Second
+				return 80 * time.Second
 			}
 			return 17 * time.Minute
 		},
@@ -429,7 +430,7 @@ func (k *checker) partArrival() {
 	two := alphabetOf([]Val{{Key: "alpha", Dev: "W1"}, {Key: "alpha", Dev: "W2"}})
 	four := alphabetOf(slotsOf("W1", "W2"))
 	ok := k.enumArrival("4slots", four, 1, vk.Pick(c, 3, 4), true, "", &ci)
-	ok = ok && k.enumArrival("2slots", two, 4, 4, true, "", &ci)
+	ok = ok && k.enumArrival("2slots", two, 4, 4, c.Thorough(), "", &ci) // quick: 4 distinct values; thorough: one may repeat
 	if ok && c.Thorough() {
 		ok = k.enumArrival("2slots_nodup", two, 5, 5, false, "", &ci)
 		// the second account (owner O, device O1): only the multisets the 4-slot alphabet does not contain
@@ -747,8 +748,11 @@ func (k *checker) enumExchange(tag string, states [][]Val, pi *int) bool {
 func (k *checker) partExchange() {
 	c, g := k.c, k.g
 	pi := 0
-	ok := k.enumExchange("4slots", contents(slotsOf("W1", "W2"), vk.Pick(c, 2, 3)), &pi)
-	_ = ok
+	if c.Quick() {
+		k.enumExchange("3slots", contents(slotsOf("W1", "W2")[:3], 2), &pi)
+	} else {
+		k.enumExchange("4slots", contents(slotsOf("W1", "W2"), 3), &pi)
+	}
 	// a few large stores (several hundred slots: the index is subdivided, the comparison takes several rounds of
 	// range requests over the wire) — fixed scenarios, not an enumeration
 	if c.NShards <= 1 || c.Shard == 4%c.NShards {
@@ -1279,13 +1283,13 @@ func (k *checker) partFaults() {
 	d1, d2 := Val{Key: "alpha", Dev: "W2", T: 1}, Val{Key: "alpha", Dev: "W2", T: 2}
 	if c.NShards <= 1 || c.Shard == 2%c.NShards {
 		fixed := []struct{ pre, batch []Val }{
-			{nil, []Val{a1, b1}},                                // inserts
-			{[]Val{a1, b1}, []Val{a2, b3}},                      // replacements
-			{[]Val{a1}, []Val{a2, a3}},                          // one id twice, ascending (two replacements)
-			{[]Val{a1}, []Val{a3, a2}},                          // one id twice, descending (the second loses inside the batch)
-			{nil, []Val{d1, d2}},                                // one id twice, first an insert
-			{[]Val{a1, b2}, []Val{a2, d1, a3, b1, d2, d1}},      // everything at once
-			{[]Val{a1, b1}, []Val{a2, w12bad(k), b2}},           // an invalid element in the middle
+			{nil, []Val{a1, b1}},                           // inserts
+			{[]Val{a1, b1}, []Val{a2, b3}},                 // replacements
+			{[]Val{a1}, []Val{a2, a3}},                     // one id twice, ascending (two replacements)
+			{[]Val{a1}, []Val{a3, a2}},                     // one id twice, descending (the second loses inside the batch)
+			{nil, []Val{d1, d2}},                           // one id twice, first an insert
+			{[]Val{a1, b2}, []Val{a2, d1, a3, b1, d2, d1}}, // everything at once
+			{[]Val{a1, b1}, []Val{a2, w12bad(k), b2}},      // an invalid element in the middle
 		}
 		for _, f := range fixed {
 			k.faultBatch(f.pre, f.batch)
